@@ -44,5 +44,44 @@ func TestVerifConfQueueStop(t *testing.T) {
 	if startedAfterStop > 0 {
 		fmt.Printf("CONF-FAIL case=queue-task-started-after-stop fn=task/queue.(*TaskQueue).waitForTask detail=a task added right after the stop request was started in %d of %d trials\n", startedAfterStop, trials)
 	}
-	fmt.Printf("CONF-STATS evaluated=%d scope=%d timing trials: worker waiting on an empty queue, cancel, AddLast, 3ms observation\n", trials, trials)
+	// the stop request arrives while a handler is running; whatever the handler answers (Success,
+	// Keep, Fail, Repeat, with or without a delay request), no handler is started afterwards and the
+	// worker ends with the status "stop"
+	det := 0
+	for _, st := range []TaskStatus{Success, Keep, Fail, Repeat} {
+		for _, delay := range []time.Duration{0, 5 * time.Millisecond} {
+			det++
+			ctx, cancel := context.WithCancel(context.Background())
+			q := NewTasksQueue()
+			q.WithContext(ctx)
+			q.WaitLoopCheckInterval = 200 * time.Microsecond
+			q.DelayOnQueueIsEmpty = 200 * time.Microsecond
+			q.DelayOnRepeat = time.Millisecond
+			q.ExponentialBackoffFn = func(int) time.Duration { return time.Millisecond }
+			var calls, after int32
+			var stoppedAt int32
+			q.WithHandler(func(tk task.Task) TaskResult {
+				if atomic.AddInt32(&calls, 1) == 1 {
+					cancel() // shutdown is requested during the first run of the handler
+					atomic.StoreInt32(&stoppedAt, 1)
+				} else if atomic.LoadInt32(&stoppedAt) == 1 {
+					atomic.AddInt32(&after, 1)
+				}
+				return TaskResult{Status: st, DelayBeforeNextTask: delay}
+			})
+			q.AddLast(&task.BaseTask{Id: "first"})
+			q.AddLast(&task.BaseTask{Id: "second"})
+			q.Start()
+			deadline := time.Now().Add(300 * time.Millisecond)
+			for time.Now().Before(deadline) && q.GetStatus() != "stop" {
+				time.Sleep(time.Millisecond)
+			}
+			time.Sleep(5 * time.Millisecond)
+			if n := atomic.LoadInt32(&after); n > 0 || q.GetStatus() != "stop" {
+				fmt.Printf("CONF-FAIL case=queue-handler-started-after-stop-during-handler fn=task/queue.(*TaskQueue).Start$1 detail=stop requested while the handler runs, handler answers %s (delay %s): %d handler start(s) after the stop request, worker status %q (want 0 and \"stop\")\n", st, delay, n, q.GetStatus())
+			}
+			cancel()
+		}
+	}
+	fmt.Printf("CONF-STATS evaluated=%d scope=%d timing trials: worker waiting on an empty queue, cancel, AddLast, 3ms observation; 8 deterministic runs: stop requested while the handler runs x handler result {Success,Keep,Fail,Repeat} x delay request or not\n", trials+det, trials)
 }
